@@ -38,7 +38,12 @@ func vRegister(st *vState, tag string, kind int) (protocol.GUID, *verif.ModelSig
 // TO1.ProveToRV against the real responder: the redirect is released only to a
 // token signed by the device key of the voucher registered for the claimed GUID,
 // carrying this session's nonce; the released blob is the stored one.
-func VerifC07_RvRedirectSpec() {
+func VerifC07_RvRedirectSpec() { vRvRedirectSpec(false) }
+
+// C10: the same token grammar must never crash the rendezvous responder
+func VerifC10_TO1ProveToRV() { vRvRedirectSpec(true) }
+
+func vRvRedirectSpec(nopanic bool) {
 	verif.Expect("released")
 	verif.Expect("rejected")
 	verif.Bound("C07", "two registered GUIDs (symbolic, distinct) with P-256 device keys; session nonce present/absent; EAT: payload present/null, nonce claim absent / 16 symbolic bytes / 15 bytes / integer, UEID claim absent / symbolic bytes of length {0,16,17,18} / integer, protected alg in {ES256, ES384, unregistered}, signature 64 symbolic bytes")
@@ -95,7 +100,7 @@ func VerifC07_RvRedirectSpec() {
 	srv := &TO1Server{Session: st, RVBlobs: st}
 	var rt uint8
 	var resp any
-	panicked, _ := verif.Caught(func() { rt, resp = srv.Respond(context.Background(), protocol.TO1ProveToRVMsgType, bytes.NewReader(wire)) })
+	panicked := vRun(nopanic, func() { rt, resp = srv.Respond(context.Background(), protocol.TO1ProveToRVMsgType, bytes.NewReader(wire)) })
 	if panicked {
 		verif.Reached("panicked")
 		return
